@@ -202,18 +202,8 @@ func ruleGem(p *Prog, r *Report) {
 			if _, ok := fn.Signature.Params().At(0).Type().Underlying().(*types.Slice); !ok || !types.Identical(fn.Signature.Params().At(0).Type(), fn.Signature.Results().At(0).Type()) {
 				continue
 			}
-			for _, l := range findLoops(fn) {
-				for b := range l.body {
-					for _, ins := range b.Instrs {
-						if sl, ok := ins.(*ssa.Slice); ok && sl.Low == nil && sl.High != nil {
-							if bo, ok := sl.High.(*ssa.BinOp); ok && bo.Op == token.SUB {
-								if n, ok := constInt(bo.Y); ok && n == 1 {
-									trimFn = fn
-								}
-							}
-						}
-					}
-				}
+			if trailingTrimShape(fn) {
+				trimFn = fn
 			}
 		}
 		if trimFn == nil {
@@ -224,7 +214,7 @@ func ruleGem(p *Prog, r *Report) {
 			numeric, zero := false, false
 			for b := range l.body {
 				for _, ins := range b.Instrs {
-					if bo, ok := ins.(*ssa.BinOp); ok && bo.Op == token.EQL {
+					if bo, ok := ins.(*ssa.BinOp); ok && (bo.Op == token.EQL || bo.Op == token.NEQ) {
 						if n, ok := constInt(bo.Y); ok && n == 0 && isIntType(bo.X.Type()) {
 							zero = true
 						}
@@ -281,20 +271,8 @@ func ruleGem(p *Prog, r *Report) {
 		}
 		var trim *ssa.Function
 		for _, fn := range p.RepoReachable(e.NewVer) {
-			if fn.Signature.Params().Len() == 1 && fn.Signature.Results().Len() == 1 && segT != nil && types.Identical(fn.Signature.Params().At(0).Type(), segT) && types.Identical(fn.Signature.Results().At(0).Type(), segT) {
-				for _, l := range findLoops(fn) {
-					for b := range l.body {
-						for _, ins := range b.Instrs {
-							if sl, ok := ins.(*ssa.Slice); ok && sl.Low == nil && sl.High != nil {
-								if bo, ok := sl.High.(*ssa.BinOp); ok && bo.Op == token.SUB {
-									if n, ok := constInt(bo.Y); ok && n == 1 {
-										trim = fn
-									}
-								}
-							}
-						}
-					}
-				}
+			if fn.Signature.Params().Len() == 1 && fn.Signature.Results().Len() == 1 && segT != nil && types.Identical(fn.Signature.Params().At(0).Type(), segT) && types.Identical(fn.Signature.Results().At(0).Type(), segT) && trailingTrimShape(fn) {
+				trim = fn
 			}
 		}
 		var cuts []string
@@ -457,4 +435,58 @@ func init() {
 	if false {
 		_ = fmt.Sprint
 	}
+}
+
+// trailingTrimShape: fn(xs) xs drops elements from the end of its parameter in a loop, in either
+// spelling: `for ... { xs = xs[:len(xs)-1] }` or `end := len(xs); for ... { end-- }; return xs[:end]`.
+func trailingTrimShape(fn *ssa.Function) bool {
+	if fn.Blocks == nil || len(fn.Params) != 1 {
+		return false
+	}
+	for _, l := range findLoops(fn) {
+		for b := range l.body {
+			for _, ins := range b.Instrs {
+				if sl, ok := ins.(*ssa.Slice); ok && sl.Low == nil && sl.High != nil {
+					if bo, ok := sl.High.(*ssa.BinOp); ok && bo.Op == token.SUB {
+						if n, ok := constInt(bo.Y); ok && n == 1 {
+							return true
+						}
+					}
+				}
+			}
+		}
+		for _, ins := range l.header.Instrs {
+			ph, ok := ins.(*ssa.Phi)
+			if !ok {
+				break
+			}
+			if !isIntType(ph.Type()) {
+				continue
+			}
+			startsAtLen, stepsDown := false, false
+			for i, ed := range ph.Edges {
+				if l.body[l.header.Preds[i]] {
+					if bo, ok := ed.(*ssa.BinOp); ok && bo.Op == token.SUB && bo.X == ssa.Value(ph) {
+						if n, ok := constInt(bo.Y); ok && n == 1 {
+							stepsDown = true
+						}
+					}
+				} else if lv, ok := lenArgAny(ed); ok && lv == ssa.Value(fn.Params[0]) {
+					startsAtLen = true
+				}
+			}
+			returned := false
+			for _, b := range fn.Blocks {
+				if ret, ok := b.Instrs[len(b.Instrs)-1].(*ssa.Return); ok && len(ret.Results) == 1 {
+					if sl, ok := ret.Results[0].(*ssa.Slice); ok && sl.X == ssa.Value(fn.Params[0]) && sl.Low == nil && sl.High == ssa.Value(ph) {
+						returned = true
+					}
+				}
+			}
+			if startsAtLen && stepsDown && returned {
+				return true
+			}
+		}
+	}
+	return false
 }
